@@ -156,6 +156,7 @@ def applyAct (a : Act) (r : Rune) (s : PState) : PState × List Seq :=
   | .startTimer => (s, [])           -- the timer is C08's (Model/ParserRun.lean)
   | .deferClearIgnoreST => (s, [])
   | .retIfIgnoreST _ => (s, [])
+  | .unknown => (s, [])              -- not modelled: the correspondence and the oracle will tell
 
 /-- Does the action read `r`?  (On `eof` none of these may run: `r` would be −1.) -/
 def usesRune : Act → Bool
